@@ -173,9 +173,11 @@ def _extract_omega_delta_phi(
                 pchip = PCHIP1D(t_grid, signal.real)
                 data_mid[:, q_pos] = pchip(t_mid)
             if name == "amp":
-                data_mid[-1, q_pos] = torch.where(
-                    data_mid[-1, q_pos] > 0,
-                    data_mid[-1, q_pos],
+                # extrapolation beyond the last sample can undershoot in
+                # every step whose midpoint lies there, not only the last
+                data_mid[:, q_pos] = torch.where(
+                    data_mid[:, q_pos] > 0,
+                    data_mid[:, q_pos],
                     0,
                 )
 
